@@ -146,6 +146,12 @@ func FrameTemplates(full bool) []Tmpl {
 			add("udp6-len"+itoa(ul)+"-"+itoa(int(dp)), refnet.Eth(Bcast, MAC1, 0x86dd, refnet.IP6(LLA1, LLA2, 17, 64, u, -1)))
 		}
 	}
+	// (4c) ARP with a hardware type, protocol type or protocol length other than Ethernet/IPv4
+	for _, v := range [][3]int{{6, 0x0800, 4}, {1, 0x1000, 4}, {1, 0x0800, 16}, {0, 0, 0}, {0xffff, 0xffff, 255}} {
+		a := refnet.ARP(1, MAC1, IP4a, make([]byte, 6), IP4b)
+		a[0], a[1], a[2], a[3], a[5] = byte(v[0]>>8), byte(v[0]), byte(v[1]>>8), byte(v[1]), byte(v[2])
+		add("arp-htype"+itoa(v[0])+"-ptype"+itoa(v[1])+"-plen"+itoa(v[2]), refnet.Eth(Bcast, MAC1, 0x0806, a))
+	}
 	// (5) TCP data offsets
 	for _, doff := range []int{0, 4, 5, 6, 15} {
 		seg := refnet.TCP(40000, 80, 1, 2, doff, 0x18, Pat(10, 9))
